@@ -73,9 +73,11 @@ func (r *entityReaderWriters) accessorAt(mime string) (EntityReaderWriter, bool)
 	if !ok {
 		// retry with reverse lookup
 		// more expensive but we are in an exceptional situation anyway
+		// take the longest registered type that is part of mime ; the result must not depend on map order
+		best := ""
 		for k, v := range r.accessors {
-			if strings.Contains(mime, k) {
-				return v, true
+			if strings.Contains(mime, k) && (len(k) > len(best) || (len(k) == len(best) && k < best)) {
+				best, er, ok = k, v, true
 			}
 		}
 	}
